@@ -36,8 +36,13 @@ STM = [
     "def area(wd: int, ht: itn) -> int:\n    return wd * ht",
     "def ann(a: int, b: str = 's') -> float:\n    return 1.0\nprint(ann.__annotations__)",
     "count: int = 3\nprint(__annotations__)",
+    "import helper\nprint(helper.HX)", "from helper import hf\nprint(hf(2))", "import helper as hh\nhh.HX = 5\nprint(hh.hf(1))",
+    "def late():\n    import helper\n    return helper.HX\nprint(late())",
+    "fh = open('data.txt')\nprint(fh.read())\nfh.close()", "with open('data.txt') as fh2:\n    for ln in fh2:\n        print(ln.strip())",
 ]
 QUEUES = [[], ['3'], ['3', 'x'], ['3 ', ' x\t']]
+EXTRA_FILES = {'helper.py': "print('loading helper')\nHX = 1\ndef hf(a):\n    return a + HX\n",
+               'data.txt': "line one\nline two\n"}
 
 FUNCS = """
 def ident(v):
@@ -105,15 +110,47 @@ def _setup():
     DEFAULT = sb.data.get('v')
 
 
+_REFDIR = None
+
+
+def _refdir():
+    global _REFDIR
+    if _REFDIR is None:
+        import os
+        import tempfile
+        base = os.path.join(os.path.dirname(os.path.dirname(os.path.abspath(__file__))), '.work')
+        os.makedirs(base, exist_ok=True)
+        _REFDIR = tempfile.mkdtemp(prefix='c06ref_', dir=base)
+        for name, text in EXTRA_FILES.items():
+            with open(os.path.join(_REFDIR, name), 'w') as f:
+                f.write(text)
+        import atexit
+        import shutil
+        atexit.register(shutil.rmtree, _REFDIR, True)
+    return _REFDIR
+
+
 def plain(code, inputs):
+    import os
+    import sys
     inputs = list(inputs)
     out = io.StringIO()
+    d = _refdir()
+    real_open = open
+
+    def ref_open(name, *a, **k):
+        if name in EXTRA_FILES:
+            return real_open(os.path.join(d, name), *a, **k)
+        return real_open(name, *a, **k)
 
     def inp(prompt=''):
         out.write(ECHO[prompt])
         return inputs.pop(0) if inputs else DEFAULT
-    env = {'__name__': '__main__', 'input': inp}
+    env = {'__name__': '__main__', 'input': inp, 'open': ref_open}
     outcome = ('ok', None)
+    sys.path.insert(0, d)
+    sys.modules.pop('helper', None)
+    sys.dont_write_bytecode = True
     try:
         comp = compile(code, 'answer.py', 'exec')
         with contextlib.redirect_stdout(out):
@@ -122,7 +159,11 @@ def plain(code, inputs):
         tb = traceback.extract_tb(e.__traceback__)
         line = [fr.lineno for fr in tb if fr.filename == 'answer.py']
         outcome = (type(e).__name__, line[-1] if line else None)
+    finally:
+        sys.path.remove(d)
+        sys.modules.pop('helper', None)
     env.pop('input', None)
+    env.pop('open', None)
     return out.getvalue(), env, outcome, inputs
 
 
@@ -133,6 +174,8 @@ def summarize(ns):
             continue
         if isinstance(v, (int, float, str, bool, type(None), list, tuple, dict, set)):
             res[k] = ('data', repr(v))
+        elif hasattr(v, 'read') and hasattr(v, 'close'):
+            res[k] = ('obj', 'file object')     # pedal serves submission files from memory (StringIO): same interface
         else:
             res[k] = ('obj', type(v).__name__)
     return res
@@ -151,7 +194,10 @@ def make_programs(max_len, pool):
         ctx.set_sample({'program': code, 'inputs': queue})
         pout, pns, poutcome, pleft = plain(code, queue)
         cmds.clear_report()
-        cmds.contextualize_report(code)
+        from pedal.core.submission import Submission
+        files = dict(EXTRA_FILES)
+        files['answer.py'] = code
+        cmds.contextualize_report(Submission(files=files, main_file='answer.py', main_code=code))
         sb = sb_cmds.get_sandbox()
         sb.set_input(list(queue))
         ctx.step('run')
